@@ -29,6 +29,31 @@ func vSegmentSizesMatch(db *DB, tag string) {
 	}
 }
 
+// vSegmentsWellFormed: after a recovery every segment file is exactly the header
+// followed by valid records (nothing that a validating reader rejects is left).
+func vSegmentsWellFormed(db *DB, tag string) {
+	for _, seg := range db.datalog.segments {
+		if seg == nil {
+			continue
+		}
+		data := vReadWhole(db.opts.FileSystem, seg.name)
+		vAssert(len(data) >= headerSize, tag+".segment-has-header")
+		if len(data) < headerSize {
+			continue
+		}
+		body := data[headerSize:]
+		off := 0
+		for n := 0; n < 64 && off < len(body); n++ {
+			rec, ok := refDecodeAt(body, off)
+			vExpect(ok, tag+".segment-holds-only-valid-records-after-recovery")
+			if !ok {
+				break
+			}
+			off += rec.size
+		}
+	}
+}
+
 // hC04: epoch 1 = prefix + one operation that is cut by a crash (torn write
 // included); epoch 2 = recovering Open, itself cut by a crash at a symbolic
 // file-system call or not; epoch 3 = Open, L2 acknowledged operations, process
@@ -92,6 +117,7 @@ func hC04(n, prefix, L2, vlen int) {
 	vAssert(vOr(mA, mB), "C04.recovered-state-is-before-or-after-inflight-op")
 	checkSelfConsistent(db2, after, "C04.e2")
 	vCheckLogInvariant(db2, "C04.e2")
+	vSegmentsWellFormed(db2, "C04.e2")
 	cur := observeState(db2, r)
 
 	// epoch 3: acknowledged operations in the recovered session, then process death
